@@ -172,7 +172,9 @@ func (h *HttpServer) readHTTPBody(r *http.Request) ([]byte, error) {
 		decompressedCap := h.maxDecompressedBodySize
 		if requestCapApplied && (decompressedCap <= 0 || limit < decompressedCap) {
 			decompressedCap = limit
-		} else if decompressedCap <= 0 && limit > 0 {
+		} else if decompressedCap == 0 && limit > 0 {
+			// Unset: derive. A negative value is the documented "no cap"
+			// (SetMaxDecompressedBodySize) and must stay disabled.
 			decompressedCap = limit * 16
 		}
 		decoded, err := decompressBounded(encoding, body, decompressedCap)
